@@ -331,9 +331,9 @@ Definition ident_live (w : world) (x : model) (key : list N) : option id :=
   | None => None
   end.
 
-(* the overlap check that runs before anything is modified (fix 9d6ce2a): every path of the new data (oldest first)
-   against the model's index, else against the first element of the new data with that path *)
-Fixpoint overlap_check (w : world) (x : model) (t : itree) (l : list (list N * list nat)) (new_paths : list (list N * N))
+(* the overlap check that runs before anything is modified (fixes 9d6ce2a, 3c33b6d): every path of the new data
+   (oldest first) must be new in this file, and if the model's index has a live element for it, of the same kind *)
+Fixpoint overlap_check (w : world) (x : model) (t : itree) (l : list (list N * list nat)) (new_paths : list (list N))
   : res bool :=
   match l with
   | [] => Val false
@@ -344,16 +344,13 @@ Fixpoint overlap_check (w : world) (x : model) (t : itree) (l : list (list N * l
       match w_nodes w value with
       | None => Pan "dangling node id"
       | Some vn =>
-        let new_name := n_name vn in
-        let existing_name :=
+        let differs_from_existing :=
           match ident_live w x key with
-          | Some existing => match w_nodes w existing with Some en => Some (n_name en) | None => None end
-          | None => assoc_get key new_paths
+          | Some existing => match w_nodes w existing with Some en => negb (n_name en =? n_name vn) | None => false end
+          | None => false
           end in
-        match existing_name with
-        | Some nm => if negb (nm =? new_name) then Val true else overlap_check w x t r new_paths
-        | None => overlap_check w x t r (new_paths ++ [(key, new_name)])
-        end
+        if differs_from_existing || existsb (bytes_eqb key) new_paths then Val true
+        else overlap_check w x t r (key :: new_paths)
       end
     end
   end.
